@@ -109,8 +109,9 @@ func VerifC01_PassPlacementsAreFeasible() {
 		}
 		return verifrt.Bool(l + ".available")
 	}
-	w.addType("it-a", verifrt.MilliQuantity("it-a.cpu", 0, 16000), []pwOffer{{"zone-1", v1.CapacityTypeOnDemand, 2, av("it-a.z1")}, {"zone-2", v1.CapacityTypeSpot, 1, av("it-a.z2")}})
-	w.addType("it-b", verifrt.MilliQuantity("it-b.cpu", 0, 16000), []pwOffer{{"zone-2", v1.CapacityTypeOnDemand, 4, av("it-b.z2")}, {"zone-1", v1.CapacityTypeSpot, 3, av("it-b.z1")}})
+		override := ""
+	w.addType("it-a", verifrt.MilliQuantity("it-a.cpu", 0, 16000), []pwOffer{{zone: "zone-1", ct: v1.CapacityTypeOnDemand, price: 2, available: av("it-a.z1")}, {zone: "zone-2", ct: v1.CapacityTypeSpot, price: 1, available: av("it-a.z2"), overrideCPU: override}})
+	w.addType("it-b", verifrt.MilliQuantity("it-b.cpu", 0, 16000), []pwOffer{{zone: "zone-2", ct: v1.CapacityTypeOnDemand, price: 4, available: av("it-b.z2")}, {zone: "zone-1", ct: v1.CapacityTypeSpot, price: 3, available: av("it-b.z1")}})
 
 	alloc := verifrt.MilliQuantity("node.cpu", 0, 16000)
 	node, _ := w.addNode("node-1", "pool-1", "it-a", v1.CapacityTypeOnDemand, "zone-1", pwList(alloc), pwInitialized)
@@ -173,8 +174,7 @@ func VerifC01_PassPlacementsAreFeasible() {
 			if t == nil {
 				continue
 			}
-			verifrt.Assert(sum.Cmp(t.cpu) <= 0, "the summed requests of the pods on a new NodeClaim fit every instance type it may be launched as")
-			launchable := false
+			launchable, room := false, false
 			for _, o := range t.offers {
 				if !zr.Has(o.zone) || !cr.Has(o.ct) {
 					continue
@@ -185,8 +185,56 @@ func VerifC01_PassPlacementsAreFeasible() {
 				}
 				verifrt.Assert(!o.available || admitted, "every offering a new NodeClaim may be launched into satisfies the required node constraints of each of its pods")
 				launchable = launchable || o.available
+				cpuHere := t.cpuOf(o)
+				fitsHere := sum.Cmp(cpuHere) <= 0
+				room = room || (o.available && fitsHere)
 			}
 			verifrt.Assert(launchable, "every launch option has an available offering compatible with the NodeClaim's requirements")
+			verifrt.Assert(room, "for every instance type a new NodeClaim may be launched as, some available compatible offering has allocatable for the summed requests of its pods")
 		}
+	}
+}
+
+// Offerings with a capacity override form allocatable groups of their own: an instance type stays a launch option only
+// if one and the same available, compatible offering also has the room.
+func VerifC01_PassCapacityOverride() {
+	w := pwNew(&opopts.Options{})
+	w.addPool("pool-1", 0)
+	av := func(l string) bool { return verifrt.Bool(l + ".available") }
+	w.addType("it-a", verifrt.MilliQuantity("it-a.cpu", 0, 16000), []pwOffer{{zone: "zone-1", ct: v1.CapacityTypeOnDemand, price: 2, available: av("it-a.z1")}, {zone: "zone-2", ct: v1.CapacityTypeOnDemand, price: 1, available: av("it-a.z2"), overrideCPU: "1"}})
+	w.addType("it-b", verifrt.MilliQuantity("it-b.cpu", 0, 16000), []pwOffer{{zone: "zone-2", ct: v1.CapacityTypeOnDemand, price: 4, available: true}, {zone: "zone-1", ct: v1.CapacityTypeOnDemand, price: 3, available: true, overrideCPU: "2"}})
+	cpu := verifrt.MilliQuantity("pending.cpu", 1, 16000)
+	p := w.addPod("pending-0", "", cpu)
+	podZone := ""
+	switch verifrt.Choice("pending.zone", 0, 2) {
+	case 1:
+		podZone = "zone-1"
+	case 2:
+		podZone = "zone-2"
+	}
+	if podZone != "" {
+		p.Spec.NodeSelector = map[string]string{corev1.LabelTopologyZone: podZone}
+	}
+	w.deliver()
+	results, err := w.prov.Schedule(w.ctx)
+	verifrt.Assert(err == nil, "the scheduling pass completes")
+	pl, _ := pwFind(results, p.UID)
+	if pl.claim == nil {
+		return
+	}
+	verifrt.Reach("on-new")
+	zr := pl.claim.Requirements.Get(corev1.LabelTopologyZone)
+	for _, it := range pl.claim.InstanceTypeOptions {
+		t := w.typeOf(it)
+		room := false
+		for _, o := range t.offers {
+			if !zr.Has(o.zone) || (podZone != "" && o.zone != podZone) {
+				continue
+			}
+			cpuHere := t.cpuOf(o)
+			fitsHere := cpu.Cmp(cpuHere) <= 0
+			room = room || (o.available && fitsHere)
+		}
+		verifrt.Assert(room, "for every instance type a new NodeClaim may be launched as, some available compatible offering has allocatable for the pod (offerings with a capacity override count with their own capacity)")
 	}
 }
